@@ -69,8 +69,8 @@ func fieldArith(p *load.Prog, r *report.Report, m *elemModel, prop string) {
 	}
 	// aliasing patterns: which operand (if any) is the receiver, and whether both operands are the same object
 	type pat struct {
-		name     string
-		u, v     string // "e", "a", "b"
+		name string
+		u, v string // "e", "a", "b"
 	}
 	pats2 := []pat{{"distinct", "a", "b"}, {"u is the receiver", "e", "b"}, {"v is the receiver", "a", "e"}, {"u and v are the same", "a", "a"}, {"all the same", "e", "e"}}
 	pats1 := []pat{{"distinct", "a", ""}, {"argument is the receiver", "e", ""}}
